@@ -28,7 +28,7 @@ _CASES = None
 _SEEDDIGESTS = None
 _SEEDS = None
 
-NAME_SETS = (("A", "B", "C"), ("b", "Zed", "c1"), ("10", "9", "x"))
+NAME_SETS = (("A", "B", "C"), ("b", "Zed", "c1"), ("10", "1", "x1"))  # the third set has names contained in one another
 KNOWN_COVER = (0, 6, 10, 12, 45, 104)
 VERIF = os.path.dirname(os.path.dirname(os.path.abspath(__file__)))
 
